@@ -676,6 +676,60 @@ class Repo:
             self._makers = out
         return self._makers
 
+    def records(self):
+        """immutable record types of the package: name -> (fields, {method: (params, expression)},
+        {property: expression}).  ``X = namedtuple('X', ...)`` and ``class X(namedtuple('X', ...))``
+        whose methods are single return statements.  A name bound twice is not a record."""
+        if '_records' in self.__dict__:
+            return self.__dict__['_records']
+        out, seen = {}, {}
+
+        def fields_of(call):
+            if not (isinstance(call, ast.Call) and call_name(call) in ('namedtuple', 'collections.namedtuple') and len(call.args) == 2 and not call.keywords):
+                return None
+            a = call.args[1]
+            if isinstance(a, ast.Constant) and isinstance(a.value, str):
+                return a.value.replace(',', ' ').split()
+            if isinstance(a, (ast.List, ast.Tuple)) and all(isinstance(x, ast.Constant) and isinstance(x.value, str) for x in a.elts):
+                return [x.value for x in a.elts]
+            return None
+        for mod in self.modules.values():
+            for st in mod['tree'].body:
+                if isinstance(st, ast.Assign) and len(st.targets) == 1 and isinstance(st.targets[0], ast.Name):
+                    seen[st.targets[0].id] = seen.get(st.targets[0].id, 0) + 1
+                    f = fields_of(st.value)
+                    if f is not None:
+                        out[st.targets[0].id] = (f, {}, {})
+                elif isinstance(st, (ast.ClassDef, ast.FunctionDef)):
+                    seen[st.name] = seen.get(st.name, 0) + 1
+                    if isinstance(st, ast.ClassDef) and len(st.bases) == 1 and not st.keywords:
+                        f = fields_of(st.bases[0])
+                        if f is None:
+                            continue
+                        meths, props, ok = {}, {}, True
+                        for b in st.body:
+                            if isinstance(b, ast.Expr) and isinstance(b.value, ast.Constant):
+                                continue
+                            if isinstance(b, ast.Assign) and len(b.targets) == 1 and canon(b.targets[0]) == '__slots__':
+                                continue
+                            if isinstance(b, ast.FunctionDef) and not b.name.startswith('__'):
+                                body = [x for x in b.body if not (isinstance(x, ast.Expr) and isinstance(x.value, ast.Constant))]
+                                a = b.args
+                                plain = not (a.vararg or a.kwarg or a.kwonlyargs or a.posonlyargs or a.defaults) and a.args and a.args[0].arg == 'self'
+                                decs = [canon(d) for d in b.decorator_list]
+                                if plain and len(body) == 1 and isinstance(body[0], ast.Return) and body[0].value is not None and decs in ([], ['property']):
+                                    if decs:
+                                        props[b.name] = body[0].value
+                                    else:
+                                        meths[b.name] = ([x.arg for x in a.args[1:]], body[0].value)
+                                continue
+                            ok = False
+                        if ok:
+                            out[st.name] = (f, meths, props)
+        out = {k: v for k, v in out.items() if seen.get(k) == 1}
+        self.__dict__['_records'] = out
+        return out
+
     def walker(self, inline_depth=0, max_paths=4096, recv_types=None, fold=None, tag=None, keep=None, split_ifexp=False):
         sent = self.private_sentinels()
         makers = self.function_makers()
@@ -718,6 +772,7 @@ class Repo:
         w.class_constant = self.class_constant
         w.module_tables = self.module_tables
         w.class_tables = self.class_tables
+        w.records = self.records()
         w.split_ifexp = split_ifexp
         return w
 
